@@ -31,6 +31,8 @@ type CaseC18 struct {
 	// LateHeads: after the close the author writes new entries and their heads are handed to the closed
 	// store (Sync after close) while its fetches would park: nothing may be left running for them
 	LateHeads bool `json:"late_heads,omitempty"`
+	// SharedOpts: every database of the instance is opened through one options value, as callers do
+	SharedOpts bool `json:"shared_opts,omitempty"`
 }
 
 func genC18(rt *rapid.T) CaseC18 {
@@ -41,6 +43,7 @@ func genC18(rt *rapid.T) CaseC18 {
 		ReleaseBefore: rapid.Bool().Draw(rt, "releaseBefore"),
 		MidWrite:      rapid.Bool().Draw(rt, "midWrite"),
 		LateHeads:     rapid.Bool().Draw(rt, "lateHeads"),
+		SharedOpts:    rapid.Bool().Draw(rt, "sharedOpts"),
 	}
 	for i := 0; i < n; i++ {
 		c.Types = append(c.Types, rapid.SampledFrom([]string{"eventlog", "keyvalue", "docstore"}).Draw(rt, "type"))
@@ -113,8 +116,15 @@ func execC18(c CaseC18) *Outcome {
 	if err != nil {
 		return fail("harness: %v", err)
 	}
+	shared := &orbitdb.CreateDBOptions{}
+	openOpts := func() *orbitdb.CreateDBOptions {
+		if c.SharedOpts {
+			return shared
+		}
+		return &orbitdb.CreateDBOptions{}
+	}
 	for d := 0; d < n; d++ {
-		s, err := db0.Open(ctx, addrs[d], &orbitdb.CreateDBOptions{})
+		s, err := db0.Open(ctx, addrs[d], openOpts())
 		if err != nil {
 			return fail("harness: open: %v", err)
 		}
@@ -181,7 +191,7 @@ func execC18(c CaseC18) *Outcome {
 		if err := ss[d].Close(); err != nil {
 			return fail("harness: close before reload: %v", err)
 		}
-		s, err := db0.Open(ctx, addrs[d], &orbitdb.CreateDBOptions{})
+		s, err := db0.Open(ctx, addrs[d], openOpts())
 		if err != nil {
 			return fail("harness: reopen: %v", err)
 		}
@@ -472,6 +482,9 @@ func execC18(c CaseC18) *Outcome {
 	}
 	if lateGate {
 		o.Labels = append(o.Labels, "new-heads-handed-to-the-closed-store")
+	}
+	if c.SharedOpts && n >= 2 {
+		o.Labels = append(o.Labels, "shared-options-value")
 	}
 	return o
 }
